@@ -7,6 +7,7 @@ use reqwest::{header, Client, ClientBuilder, Response};
 use std::fs::File;
 #[cfg(feature = "crypto_openssl")]
 use std::io::prelude::*;
+#[cfg_attr(feature = "breard_r_acmed_verif", allow(unused_imports))]
 use std::{thread, time};
 
 pub const CONTENT_TYPE_JOSE: &str = "application/jose+json";
@@ -120,6 +121,11 @@ fn update_nonce(endpoint: &mut Endpoint, response: &Response) -> Result<(), Erro
 			let msg = format!("{nonce}: invalid nonce.");
 			return Err(msg.into());
 		}
+		#[cfg(feature = "breard_r_acmed_verif")]
+		crate::verif::emit(
+			"NonceSet",
+			serde_json::json!({"ep": endpoint.name, "nonce": nonce}),
+		);
 		endpoint.nonce = Some(nonce);
 	}
 	Ok(())
@@ -136,6 +142,11 @@ fn check_status(response: &Response) -> Result<(), Error> {
 
 async fn rate_limit(endpoint: &mut Endpoint) {
 	endpoint.rl.block_until_allowed().await;
+	#[cfg(feature = "breard_r_acmed_verif")]
+	crate::verif::emit(
+		"RlAdmit",
+		serde_json::json!({"ep": endpoint.name, "limiter": crate::verif::limiter_state(&endpoint.rl)}),
+	);
 }
 
 fn header_to_string(header_value: &HeaderValue) -> Result<String, Error> {
@@ -176,6 +187,8 @@ fn get_client(root_certs: &[String]) -> Result<Client, Error> {
 pub async fn get(endpoint: &mut Endpoint, url: &str) -> Result<ValidHttpResponse, HttpError> {
 	let client = get_client(&endpoint.root_certificates)?;
 	rate_limit(endpoint).await;
+	#[cfg(feature = "breard_r_acmed_verif")]
+	crate::verif::emit("HttpGet", serde_json::json!({"ep": endpoint.name, "url": url}));
 	let response = client
 		.get(url)
 		.header(header::ACCEPT, CONTENT_TYPE_JSON)
@@ -209,6 +222,14 @@ where
 		let nonce = &endpoint.nonce.clone().unwrap_or_default();
 		let body = data_builder(nonce, url)?;
 		rate_limit(endpoint).await;
+		#[cfg(feature = "breard_r_acmed_verif")]
+		crate::verif::emit(
+			"HttpPost",
+			serde_json::json!({
+				"ep": endpoint.name, "url": url, "nonce": nonce,
+				"cell": endpoint.nonce, "body_sha": crate::verif::sha256_hex(body.as_bytes()),
+			}),
+		);
 		log::trace!("POST request body: {body}");
 		let response = request.body(body).send().await?;
 		update_nonce(endpoint, &response)?;
@@ -227,6 +248,12 @@ where
 				}
 			}
 		}
+		#[cfg(feature = "breard_r_acmed_verif")]
+		crate::verif::on_thread_sleep(
+			"http_retry",
+			time::Duration::from_secs(crate::DEFAULT_HTTP_FAIL_WAIT_SEC),
+		);
+		#[cfg(not(feature = "breard_r_acmed_verif"))]
 		thread::sleep(time::Duration::from_secs(crate::DEFAULT_HTTP_FAIL_WAIT_SEC));
 	}
 	Err("too much errors, will not retry".into())
